@@ -14,5 +14,5 @@ for m in r["mismatches"]:
     c[(m["ops"][-1]["op"] + "." + str(m["ops"][-1].get("f", "")), tuple(m["diffs"])[:3])] += 1
 for k, v in c.most_common(15):
     print("  ", v, k)
-print("  outcomes", r["distribution"]["outcomes"])
+print("  outcomes", r["distribution"].get("outcomes"))
 json.dump({"mismatches": r["mismatches"][:20], "impl_failures": r["impl_failures"][:20]}, open("/tmp/dev_%s.json" % pid, "w"), default=str)
